@@ -33,6 +33,7 @@ INSTGEN_INSTANCES = [("beng01", 0.25), ("cl01_020_01", 0.125),
                      ("cl02_020_01", 0.25), ("beng02", 0.125)]
 DC_INSTANCES = [("stuart_landau", "linear"), ("lorenz", "linear"),
                 ("stuart_landau", "quadratic")]
+DCS_INSTANCES = ["stuart_landau", "lorenz"]
 INSTGEN_INNER_FES = 40
 INSTGEN_INNER_RUNS = 1
 _EXAMPLES: dict = {}
@@ -75,6 +76,8 @@ def make_instance(inst_id: str):
     if dom == "dc":
         sysname, ctrl = rest.split(":")
         return _dc_instance(sysname, ctrl)
+    if dom == "dcs":
+        return _dcs_instance(rest)
     raise ValueError(inst_id)
 
 
@@ -103,6 +106,21 @@ def _dc_instance(sysname: str, ctrl: str):
         _DC_CACHE[key] = (system, getattr(cmod, ctrl))
     system, cfun = _DC_CACHE[key]
     return Instance(system, cfun(system))
+
+
+def _dcs_instance(sysname: str):
+    """A SystemModel as in experiment_surrogate.make_instances (ANN controller
+    and ANN model blueprint), on the shortened system."""
+    from moptipyapps.dynamic_control.controllers.ann import make_ann
+    from moptipyapps.dynamic_control.system_model import SystemModel
+    key = ("dcs", sysname)
+    if key not in _DC_CACHE:
+        system = _dc_instance(sysname, "linear").system
+        sd, cd = system.state_dims, system.control_dims
+        _DC_CACHE[key] = (system, make_ann(sd, cd, [sd, sd]),
+                          make_ann(sd + cd, sd, [sd, sd, sd]))
+    system, ctrl, model = _DC_CACHE[key]
+    return SystemModel(system, ctrl, model)
 
 
 def make_setup(setup_id: str, budget: int):
@@ -153,6 +171,12 @@ def make_setup(setup_id: str, budget: int):
     if dom == "dc":
         import moptipyapps.dynamic_control.experiment_raw as er
         return lambda inst: finish(er.cmaes(inst))
+    if dom == "dcs":
+        import moptipyapps.dynamic_control.experiment_surrogate as es
+        if parts[1] == "raw":
+            return lambda inst: finish(es.cmaes_raw(inst))
+        w, t, m = int(parts[2]), int(parts[3]), int(parts[4])
+        return lambda inst: finish(es.cmaes_surrogate(inst, w, t, m, False))
     raise ValueError(setup_id)
 
 
@@ -182,6 +206,8 @@ def instances_for(dom: str) -> list:
         return [f"instgen:{n}:{s}" for n, s in INSTGEN_INSTANCES]
     if dom == "dc":
         return [f"dc:{s}:{c}" for s, c in DC_INSTANCES]
+    if dom == "dcs":
+        return [f"dcs:{s}" for s in DCS_INSTANCES]
     raise ValueError(dom)
 
 
